@@ -629,6 +629,9 @@ class Combiner(Node):
             if self.state == "SETUP_STATE":
                 
                 print(f"T={self.env.now:.2f}: {self.id} is in SETUP_STATE")
+                # the set-up period starts now: without a start time update_state() below
+                # would not charge it to SETUP_STATE
+                self.stats["last_state_change_time"] = self.env.now
                 yield self.env.timeout(self.node_setup_time)# always an int or float
                 self.update_state("IDLE_STATE", self.env.now)
 
